@@ -483,6 +483,78 @@ fn main() {
         }
     }
     mismatches.fetch_add(fam_mismatch.load(Ordering::Relaxed), Ordering::Relaxed);
+    // clone racing with the FIRST expansion of a fresh state: one thread expands child i in place, another clones it
+    // at the same moment (lock step through two progress counters); every copy must afterwards answer like a fresh twin.
+    // (A state that publishes lazily computed data and a Clone that copies it field by field can tear here.)
+    let clone_rounds: usize = argv.get(4).and_then(|x| x.parse().ok()).unwrap_or(40);
+    let mut clone_races = 0usize;
+    let mut clone_bad = 0usize;
+    for round in 0..clone_rounds {
+        let mut parents: Vec<(usize, Action)> = vec![];
+        for (i, s) in states.iter().enumerate() {
+            if (i + round) % 3 == 0 {
+                for a in s.valid_actions_no_rep() {
+                    parents.push((i, a));
+                }
+            }
+        }
+        let children: Vec<GameState> = parents.iter().map(|(i, a)| states[*i].take_action(a)).collect();
+        let n = children.len();
+        let pa = AtomicUsize::new(0);
+        let pb = AtomicUsize::new(0);
+        let ch = &children;
+        let copies: Vec<GameState> = std::thread::scope(|sc| {
+            let (pa1, pb1) = (&pa, &pb);
+            sc.spawn(move || {
+                for i in 0..n {
+                    pa1.store(i + 1, Ordering::Release);
+                    while pb1.load(Ordering::Acquire) < i + 1 {
+                        std::hint::spin_loop();
+                    }
+                    std::hint::black_box(ch[i].valid_actions());
+                }
+            });
+            let (pa2, pb2) = (&pa, &pb);
+            let h = sc.spawn(move || {
+                let mut out = Vec::with_capacity(n);
+                for i in 0..n {
+                    pb2.store(i + 1, Ordering::Release);
+                    while pa2.load(Ordering::Acquire) < i + 1 {
+                        std::hint::spin_loop();
+                    }
+                    // a few spins so that the clone falls into the middle of the expansion, not before it
+                    for _ in 0..(i % 7) * 8 {
+                        std::hint::spin_loop();
+                    }
+                    out.push(ch[i].clone());
+                }
+                out
+            });
+            h.join().expect("cloning thread")
+        });
+        clone_races += n;
+        for (k, c) in copies.iter().enumerate() {
+            let (i, a) = &parents[k];
+            let twin = states[*i].take_action(a);
+            if sorted(c.valid_actions()) != sorted(twin.valid_actions()) || term_str(&c.is_terminal()) != term_str(&twin.is_terminal()) {
+                clone_bad += 1;
+                let mut g = first_bad.lock().unwrap();
+                if g.is_none() {
+                    *g = Some(format!(
+                        "a clone taken while another thread expanded the state for the first time answers differently from a fresh twin: state after [{} {}] offers [{}] / {}, the twin [{}] / {}",
+                        all[*i].path.iter().map(enc_action).collect::<Vec<_>>().join(" "),
+                        enc_action(a),
+                        sorted(c.valid_actions()),
+                        term_str(&c.is_terminal()),
+                        sorted(twin.valid_actions()),
+                        term_str(&twin.is_terminal())
+                    ));
+                }
+            }
+        }
+    }
+    expansions.fetch_add(clone_races, Ordering::Relaxed);
+    mismatches.fetch_add(clone_bad, Ordering::Relaxed);
     // the shared states are unchanged afterwards
     let mut changed = 0;
     for (i, s) in states.iter().enumerate() {
@@ -497,9 +569,10 @@ fn main() {
         eprintln!("{}", m);
     }
     println!(
-        "{{\"threads\": {}, \"states\": {}, \"expansions\": {}, \"mismatches\": {}, \"changed_after\": {}}}",
+        "{{\"threads\": {}, \"states\": {}, \"clone_races\": {}, \"expansions\": {}, \"mismatches\": {}, \"changed_after\": {}}}",
         threads,
         states.len(),
+        clone_races,
         expansions.load(Ordering::Relaxed),
         mismatches.load(Ordering::Relaxed),
         changed
